@@ -266,7 +266,7 @@ def real_timer_cases(rep, theorem):
             continue
         cid, obs = line.split(" ", 1)
         n += 1
-        small = any(cid.endswith(x) for x in ("-0ms", "-30ms", "-1500us", "-120ms"))
+        small = any(cid.endswith(x) for x in ("-0ms", "-30ms", "-1500us", "-120ms"))     # every other delay is far beyond the window
         want = "ran" if small else "not-run"
         if obs != want:
             rep.fail("the real timer: a task scheduled with this delay %s" % ("ran before the delay had elapsed" if obs.startswith("ran") else "did not run in time: " + obs),
